@@ -465,7 +465,7 @@ def evaluate(ctx, prop, inputs, impl, nontrivial):
                     continue
             for sig, what in ORACLES[prop](scn, run):
                 one = dict(scn, plans=[plans[k]])
-                ctx.violation(dict(sig, property=prop), what, {"area": "engine", "input": one, "observed": {k2: run[k2] for k2 in ("durable", "responses", "events", "crashed")}})
+                ctx.violation(dict(sig, property=prop), what, {"area": "engine", "input": one, "observed": {k2: run[k2] for k2 in ("durable", "responses", "events", "crashed", "close") if k2 in run}})
             h = shash({"r": scn["requests"], "t": [t for t in run["trace"] if isinstance(t, dict) and "a" in t and "at" in t]})
             if h not in seen and nontrivial(scn, run):
                 nt += 1
